@@ -1,7 +1,7 @@
 // C05 correspondence harness: drives the real fcppt templates with an instrumented element type and prints the
 // event abstraction described in lean/FcpptModel/Drv/C05.lean:
 //   t=<tag> r=<slots> a0=<slots> ... cp=<ids copied> mv=<ids moved out of argument objects> ram=<ids touched after move>
-// The operations live in the family units harness/c05_{alg,opt,eith,tup,rec,grid,opts,parse}.cpp (compiled in parallel);
+// The operations live in the family units harness/c05_{alg,alg2,opt,eith,tup,rec,grid,tree,opts,parse}.cpp (compiled in parallel);
 // harness/c05_common.hpp holds the instrumented element type, the user's functions and the protocol helpers.
 #include "c05_common.hpp"
 
@@ -12,8 +12,8 @@ using namespace c05;
 std::string dispatch(std::string const &_op, line_t const &L)
 {
   std::string out;
-  if (family_alg(_op, L, L.mo, out) || family_opt(_op, L, L.mo, out) || family_eith(_op, L, L.mo, out) ||
-      family_tup(_op, L, L.mo, out) || family_rec(_op, L, L.mo, out) || family_grid(_op, L, L.mo, out) || family_opts(_op, L, L.mo, out) ||
+  if (family_alg(_op, L, L.mo, out) || family_alg2(_op, L, L.mo, out) || family_opt(_op, L, L.mo, out) || family_eith(_op, L, L.mo, out) ||
+      family_tup(_op, L, L.mo, out) || family_rec(_op, L, L.mo, out) || family_grid(_op, L, L.mo, out) || family_tree(_op, L, L.mo, out) || family_opts(_op, L, L.mo, out) ||
       family_parse(_op, L, L.mo, out))
     return out;
   throw bad_op{};
